@@ -14,6 +14,8 @@ import time
 
 HARNESS = os.path.dirname(os.path.abspath(__file__))
 VERIF = os.path.dirname(HARNESS)
+# where evidence/ and replay/ go: /verif itself, except for runs against a scratch tree (seeded.py)
+OUT = os.environ.get('VERIF_OUT') or VERIF
 LEAN = os.path.join(VERIF, 'lean')
 REPO = os.environ.get('ZODB_REPO', '/repo')
 GUARD = 'ZODB_VERIF'
@@ -312,7 +314,7 @@ class Check:
                               theorems={})
         exit_code = 0
         lines = []
-        os.makedirs(os.path.join(VERIF, 'replay'), exist_ok=True)
+        os.makedirs(os.path.join(OUT, 'replay'), exist_ok=True)
         for sig, what in sorted(self.known_hit.items()):
             lines.append('KNOWN-FINDING: property=%s %s' % (self.pid, what))
         if self.violations:
@@ -347,8 +349,8 @@ class Check:
         ev = dict(property_id=self.pid, tier=self.tier, seed=self.seed, level=level, coverage=cov,
                   assumptions=assumptions or [], wall_s=round(wall, 2),
                   violations=len(self.violations))
-        os.makedirs(os.path.join(VERIF, 'evidence'), exist_ok=True)
-        with open(os.path.join(VERIF, 'evidence', self.pid + '.json'), 'w') as f:
+        os.makedirs(os.path.join(OUT, 'evidence'), exist_ok=True)
+        with open(os.path.join(OUT, 'evidence', self.pid + '.json'), 'w') as f:
             json.dump(ev, f, indent=1, default=str)
         for l in lines:
             print(l)
@@ -362,7 +364,7 @@ class Check:
 
     def _write_replay(self, kind, v, g):
         name = '%s-%s-%d-%s.json' % (self.pid, self.tier, self.seed, kind)
-        path = os.path.join(VERIF, 'replay', name)
+        path = os.path.join(OUT, 'replay', name)
         with open(path, 'w') as f:
             json.dump(dict(property=self.pid, tier=self.tier, seed=self.seed, kind=kind,
                            signature=v['signature'], what=v['what'], case=v['case'],
